@@ -357,4 +357,4 @@ def _ancestors(nodes, n):
 
 
 def subchecks():
-    return [SubCheck("histories", check_history, histories, quick=250, thorough=3000, shards_quick=8, shards_thorough=16)]
+    return [SubCheck("histories", check_history, histories, quick=700, thorough=3000, shards_quick=8, shards_thorough=16)]
